@@ -239,3 +239,183 @@ class RPE_process_data(FnContract):
 def _no_pairs(c):
     g = sym.cur().ghost.get("raised:evo.core.metrics.id_pairs_from_delta")
     return bool(g)
+
+
+# ---- statistics, unit change, result (C12) ------------------------------------------------------------------------
+
+STATS = ["rmse", "mean", "median", "std", "min", "max", "sse"]
+UNITS = ["none", "millimeters", "centimeters", "meters", "kilometers", "seconds", "degrees", "radians", "frames",
+         "percent"]
+METER = {"millimeters": sym.frac_of_float(1e-3), "centimeters": sym.frac_of_float(1e-2), "meters": 1,
+         "kilometers": 1000}
+ANGLE = ("degrees", "radians")
+
+
+def mk_metric(c, relation="translation_part", n=None, cls="APE"):
+    m = mod()
+    pe = getattr(m, cls)(getattr(m.PoseRelation, relation))
+    if n is None:
+        n = c.int("n_err")
+        c.assume(n >= 1)
+    pe.error = c.array("err", n)
+    pe._n = n
+    return pe
+
+
+def stat_definition(c, name, err, n):
+    """the statistic's definition from the property statement, evaluated on the error array"""
+    g = err.row
+    if name == "rmse":
+        return sym.ssqrt(npstub.prefix_sum(lambda k: g(k) * g(k))(n) / n)
+    if name == "sse":
+        return npstub.prefix_sum(lambda k: g(k) * g(k))(n)
+    if name == "mean":
+        return npstub.prefix_sum(lambda k: g(k))(n) / n
+    if name == "std":
+        mean = npstub.prefix_sum(lambda k: g(k))(n) / n
+        return sym.ssqrt(npstub.prefix_sum(lambda k: (g(k) - mean) * (g(k) - mean))(n) / n)
+    raise ValueError(name)
+
+
+@register
+class get_statistic(FnContract):
+    name = M + "PE.get_statistic"
+    props = ["C12"]
+
+    def cases(self):
+        return [{"stat": s} for s in STATS]
+
+    def args(self, c, stat="rmse"):
+        pe = mk_metric(c)
+        return dict(self=pe, statistics_type=getattr(mod().StatisticsType, stat))
+
+    def pre(self, c, a):
+        yield ("error_values_exist", c.len(a.self.error) >= 1)
+
+    def result(self, c, a):
+        return c.real("stat_" + a.statistics_type.name)
+
+    def post(self, c, a, res, old=None):
+        err, name = a.self.error, a.statistics_type.name
+        n = c.len(err)
+        if name in ("rmse", "sse", "mean", "std"):
+            yield Clause("equals_its_definition[%s]" % name, c.eq(res, stat_definition(c, name, err, n)), role="prop")
+        elif name in ("min", "max"):
+            cmp = (lambda x, y: x <= y) if name == "min" else (lambda x, y: x >= y)
+            yield Clause("equals_its_definition[%s]" % name, c.And(
+                c.forall(n, lambda k: cmp(res, err.row(k))), c.exists(n, lambda k: c.eq(err.row(k), res))), role="prop")
+        else:
+            med = sym.cur().ghost.get("median_of", [])
+            yield Clause("is_the_median_of_the_error_values", len(med) == 1 and med[0][1]._cell[0] is err._cell[0]
+                         and (res is med[0][0] or c.eq(res, med[0][0])), role="prop",
+                         note="numpy.median is trusted (order statistic); min <= median <= max comes with it")
+
+
+@register
+class change_unit(FnContract):
+    name = M + "PE.change_unit"
+    props = ["C12"]
+
+    def cases(self):
+        return [{"old": o, "new": n} for o in UNITS for n in UNITS]
+
+    def args(self, c, old="meters", new="meters"):
+        U = L().load("evo.core.units").Unit
+        n = c.int("n_err")
+        c.assume(n >= 0)
+        pe = mk_metric(c, n=n)
+        pe.unit = getattr(U, old)
+        return dict(self=pe, new_unit=getattr(U, new))
+
+    def snapshot(self, c, a):
+        return types.SimpleNamespace(err=a.self.error.copy(), err_obj=a.self.error, cell=a.self.error._cell[0],
+                                     unit=a.self.unit, n=a.self._n)
+
+    @staticmethod
+    def _kind(o, n):
+        if o == n:
+            return "same"
+        if o in ("none", "frames", "percent", "seconds"):
+            return "refuse"
+        if (o in ANGLE) != (n in ANGLE) and ((o in METER or o in ANGLE) and (n in METER or n in ANGLE)):
+            return "refuse"
+        if o in METER and n in METER:
+            return "length"
+        if o == "radians" and n == "degrees":
+            return "rad2deg"
+        if o == "degrees" and n == "radians":
+            return "deg2rad"
+        return "refuse"
+
+    raises = (Raises("MetricsException", "conversion_refused",
+                     lambda c, a: {"same": False, "refuse": True}.get(
+                         change_unit._kind(a.self.unit.name, a.new_unit.name), a.self._n == 0),
+                     role="prop", pre_state=True), )
+
+    def post_raise(self, c, a, e, old):
+        yield Clause("refused_conversion_leaves_values_and_unit_untouched", c.And(
+            a.self.unit is old.unit, a.self.error is old.err_obj,
+            True if a.self.error._cell[0] is old.cell else c.forall(old.n, lambda k: c.eq(a.self.error.row(k), old.err.row(k)))),
+            role="prop")
+
+    def post(self, c, a, res, old=None):
+        kind = self._kind(old.unit.name, a.new_unit.name)
+        err = a.self.error
+        if kind == "same":
+            yield Clause("same_unit_is_a_no_op", c.And(a.self.unit is old.unit, err is old.err_obj, err._cell[0] is old.cell),
+                         role="prop")
+            return
+        yield Clause("unit_updated", a.self.unit is a.new_unit, role="prop")
+        yield Clause("one_value_per_value", c.len(err) == old.n, role="prop")
+        if kind == "length":
+            f = sym.sdiv(METER[old.unit.name], METER[a.new_unit.name])
+            yield Clause("multiplied_by_the_exact_conversion_factor", c.forall(old.n, lambda k: c.eq(
+                err.row(k), old.err.row(k) * f)), role="prop")
+        elif kind == "rad2deg":
+            yield Clause("multiplied_by_the_exact_conversion_factor", c.forall(old.n, lambda k: c.eq(
+                err.row(k), npstub.rad2deg(old.err.row(k)))), role="prop", note="rad2deg(x) = x * 180/pi (trusted numpy)")
+        elif kind == "deg2rad":
+            yield Clause("multiplied_by_the_exact_conversion_factor", c.forall(old.n, lambda k: c.eq(
+                err.row(k), npstub.deg2rad(old.err.row(k)))), role="prop", note="deg2rad(x) = x * pi/180 (trusted numpy)")
+
+
+@register
+class get_result(FnContract):
+    name = M + "PE.get_result"
+    props = ["C12", "C16"]
+
+    def cases(self):
+        out = [{"cls": "APE", "relation": r} for r in RELATIONS if r != "point_distance_error_ratio"]
+        out += [{"cls": "RPE", "relation": r} for r in RELATIONS]
+        return out
+
+    def args(self, c, cls="APE", relation="translation_part"):
+        pe = mk_metric(c, relation, cls=cls)
+        return dict(self=pe, ref_name="reference", est_name="estimate")
+
+    def snapshot(self, c, a):
+        return types.SimpleNamespace(cell=a.self.error._cell[0], err=a.self.error)
+
+    def post(self, c, a, res, old=None):
+        pe = a.self
+        n = c.len(pe.error)
+        yield Clause("exactly_the_seven_statistics", isinstance(res.stats, dict) and sorted(res.stats) == sorted(STATS),
+                     role="prop")
+        for name in ("rmse", "sse", "mean", "std"):
+            if name in res.stats:
+                yield Clause("statistic_equals_its_definition[%s]" % name,
+                             c.eq(res.stats[name], stat_definition(c, name, pe.error, n)), role="prop")
+        for name, cmp in (("min", lambda x, y: x <= y), ("max", lambda x, y: x >= y)):
+            if name in res.stats:
+                r = res.stats[name]
+                yield Clause("statistic_equals_its_definition[%s]" % name, c.And(
+                    c.forall(n, lambda k: cmp(r, pe.error.row(k))), c.exists(n, lambda k: c.eq(pe.error.row(k), r))),
+                    role="prop")
+        yield Clause("error_array_is_the_metric's_values", res.np_arrays.get("error_array") is pe.error, role="prop")
+        yield Clause("values_untouched", pe.error._cell[0] is old.cell, role="prop", props=["C12", "C16"])
+        label, title = res.info.get("label", ""), res.info.get("title", "")
+        cname = type(pe).__name__
+        yield Clause("label_names_metric_and_unit", isinstance(label, str) and cname in label and pe.unit.value in label,
+                     role="prop")
+        yield Clause("title_names_metric_relation_and_unit", isinstance(title, str) and cname in title and
+                     pe.pose_relation.value in title and pe.unit.value in title, role="prop")
